@@ -676,7 +676,8 @@ def gen_tag_fields(rng, level="canon", algo="sha1", target=None) -> dict:
     git = level == "git"
     tz, neg = gen_tz(rng, level)
     f = {"object_sha": gen_hex(rng, algo), "object_type": rng.choice([b"commit", b"tree", b"blob", b"tag"]),
-         "name": gen_word(rng, 1, 12, b"abcv0123456789.-_/") if git or rng.random() < 0.7 else gen_word(rng) + rng.choice(ODD_BYTES),
+         "name": (gen_word(rng, 1, 1, b"abcv0123456789") + gen_word(rng, 0, 10, b"abcv0123456789-_")) if git else
+                 (gen_word(rng, 1, 12, b"abcv0123456789.-_/") if rng.random() < 0.7 else gen_word(rng) + rng.choice(ODD_BYTES)),
          "tagger": gen_ident(rng, git), "tag_time": gen_time(rng, level), "tag_timezone": tz, "tag_neg": neg,
          "message": gen_message(rng, git), "signature": None}
     if target is not None:
@@ -1706,7 +1707,11 @@ def gen_sequence(rng, kind):
         return {"init": None, "init_repr": "Tree()", "ops": ops}
     gen = gen_commit_fields if kind == "commit" else gen_tag_fields
     edit = _edit_ops_commit if kind == "commit" else _edit_ops_tag
-    f = gen(rng, "canon")
+    def lf(g):
+        if kind == "commit":
+            g["mergetag"] = [m if m.endswith(b"\n") else m + b"\n" for m in g["mergetag"]]
+        return g
+    f = lf(gen(rng, "canon"))
     if kind == "tag" and f["tagger"] is None:
         f["tagger"], f["tag_time"], f["tag_timezone"], f["tag_neg"] = b"T <t@t>", 1, 0, False
     cur = dict(f)
@@ -1722,7 +1727,7 @@ def gen_sequence(rng, kind):
             else:
                 cur[attr] = v
         elif k < 0.58:
-            g = gen(rng, "canon")
+            g = lf(gen(rng, "canon"))
             if kind == "tag" and g["tagger"] is None:
                 g["tagger"], g["tag_time"], g["tag_timezone"], g["tag_neg"] = b"T <t@t>", 1, 0, False
             ops.append(["setraw", g])
@@ -1908,8 +1913,16 @@ def _stream_git(ctx):
                 while y and crud(y[-1]):
                     del y[-1]
                 return bytes(y) or b"x"
-            an, cn = simple(nm(f["author"])), simple(nm(f["committer"]))
-            ae, ce = simple(em(f["author"])), simple(em(f["committer"]))
+            def utf8(x):
+                # git re-encodes a commit that is not valid UTF-8 as if it were latin-1 (verify_utf8): keep to UTF-8 here
+                try:
+                    x.decode("utf-8")
+                    return x
+                except UnicodeDecodeError:
+                    return "Zo\u00eb \u2603".encode()
+            an, cn = utf8(simple(nm(f["author"]))), utf8(simple(nm(f["committer"])))
+            ae, ce = utf8(simple(em(f["author"]))), utf8(simple(em(f["committer"])))
+            f["message"] = utf8(f["message"])
             if any(c in an + cn + ae + ce for c in b"<>\n"):
                 continue
             f["author"], f["committer"] = an + b" <" + ae + b">", cn + b" <" + ce + b">"
@@ -1917,8 +1930,8 @@ def _stream_git(ctx):
                 f["message"] = b"msg\n"
             e = dict(core.clean_env())
             e.update({"GIT_AUTHOR_NAME": an, "GIT_AUTHOR_EMAIL": ae, "GIT_COMMITTER_NAME": cn, "GIT_COMMITTER_EMAIL": ce,
-                      "GIT_AUTHOR_DATE": f"{f['author_time']} {ref_tz(f['author_timezone']).decode()}",
-                      "GIT_COMMITTER_DATE": f"{f['commit_time']} {ref_tz(f['commit_timezone']).decode()}"})
+                      "GIT_AUTHOR_DATE": f"@{f['author_time']} {ref_tz(f['author_timezone']).decode()}",
+                      "GIT_COMMITTER_DATE": f"@{f['commit_time']} {ref_tz(f['commit_timezone']).decode()}"})
             args = ["commit-tree", empty_tree] + [x for p in f["parents"] for x in ("-p", p.decode())]
             p = subprocess.run(["git", "-C", str(repo)] + args, input=f["message"],
                                stdout=subprocess.PIPE, stderr=subprocess.PIPE, env=e, timeout=120)
@@ -1966,7 +1979,7 @@ def _stream_git(ctx):
                            stderr=subprocess.STDOUT, env=core.clean_env(), timeout=600)
         bad = 0
         for line in p.stdout.decode("latin1").splitlines():
-            m = re.match(r"(error|warning) in (\w+) ([0-9a-f]+): (\w+)", line)
+            m = re.match(r"(error|warning) in (\w+) ([0-9a-f]+): (\w+):", line)
             if m and m.group(3) in written:
                 bad += 1
                 kind, case = written[m.group(3)]
